@@ -343,6 +343,27 @@ def materialize(exe, st, it):
                 partial = nxt
             outs.extend(partial)
         return outs
+    if it.kind == "filter":
+        outs = []
+        for (s2, els) in materialize(exe, st, it.src):
+            partial = [(s2, [])]
+            for e in els:
+                nxt = []
+                for (s3, acc) in partial:
+                    for (s4, keep) in exe.call_closure(s3, it.extra, [VRef("val", e)]):
+                        if not isinstance(keep, VBool):
+                            raise PathEnd("filter predicate is not boolean")
+                        if exe.feasible(s4, keep.e):
+                            s5 = s4.clone()
+                            s5.pc.append(keep.e)
+                            nxt.append((s5, acc + [e]))
+                        if exe.feasible(s4, z3.Not(keep.e)):
+                            s6 = s4.clone()
+                            s6.pc.append(z3.Not(keep.e))
+                            nxt.append((s6, acc))
+                partial = nxt
+            outs.extend(partial)
+        return outs
     raise PathEnd("materialize %s" % it.kind)
 
 
@@ -365,6 +386,8 @@ def _key_ge(exe, st, a, b):
 
 def iterator_summaries(exe, st, f, bb, c, args, dest_ty):
     # ---- constructors / adaptors ----------------------------------------------------
+    if re.search(r"<std::vec::IntoIter<.*> as IntoIterator>::into_iter$", c):
+        return [(st, args[0])]
     if re.search(r"<std::slice::Iter<'_, .*> as IntoIterator>::into_iter$", c) or re.search(r"<std::iter::\w+<.*> as IntoIterator>::into_iter$", c):
         return [(st, args[0])]
     m = re.search(r" as Iterator>::(map|filter|enumerate|cloned|copied)(?:::<.*>)?$", c)
